@@ -782,3 +782,72 @@ def r13_homogeneous_degrees(ck, P, rid='C13-R13'):
                 ck.violation(R, f.name, '%s of degrees %d and %d at %s' % (opn, a, b, x.loc()), '%s combines a value of homogeneous degree %d with one of degree %d in a %s at %s, on a path where the homogeneous coordinate is not known to be 1: a Cartesian quantity of the gradient (centre, radius) is combined with an undivided homogeneous coordinate, so under a projective transform the gradient is evaluated about the wrong point' % (f.name, a, b, opn, x.loc()), x.loc())
     if n == 0:
         raise AnalysisBroken('%s: no floating-point sum of values with known homogeneous degrees found in the gradient scanline functions' % rid)
+
+
+def r15_reflected_angle_stays_half_open(ck, P, rid='C13-R15'):
+    """Interval typestate: the conical gradient normalises its angle into [0, K) with two loops (t < 0: t += K; t >= K: t -= K) and then
+    reflects it, C - t * s.  The reflection turns the half-open interval round: [0, K) becomes (0, C] - the closed end is now the one
+    that lies *behind* the last stop (the walker looks for pos < stop.x), transparent without a repeat.  The value C must therefore be
+    taken care of (a comparison of the reflected value with C selecting something else) before the value is used."""
+    R = ck.rule(rid, 'in pixman-conical-gradient.c, a value normalised into [0, K) by the pair of loops and then reflected (C - t * s) is compared with C, and what is returned / scaled to 16.16 on the side where it reaches C is not the reflected value itself: the ray at angle 0 (every pixel to the right of the centre on its row when the centre is at a pixel centre) would get t = 1.0, which lies behind the last stop and is transparent under REPEAT_NONE', floor=1)
+    u = P.units.get('pixman-conical-gradient.c')
+    if u is None:
+        raise AnalysisBroken('%s: pixman-conical-gradient.c not compiled' % rid)
+    def fconst(o):
+        if o and o[0] == 'fc':
+            try:
+                return float(o[1])
+            except ValueError:
+                return None
+        return None
+    n = 0
+    for fn, f in sorted(u.functions.items()):
+        # loop-normalised values: a phi one of whose incoming values is (phi - K) under fcmp oge phi, K
+        norm = set()
+        for x in f.insts():
+            if x.op != 'phi':
+                continue
+            for a in x.a:
+                y = f.v(a) if a[0] == 'v' else None
+                if y is not None and y.op == 'fsub' and list(y.a[0]) == ['v', x.i] and fconst(y.a[1]):
+                    norm.add(x.i)
+        if not norm:
+            continue
+        def from_norm(o, d=0):
+            y = f.v(o) if o and o[0] == 'v' else None
+            if y is None or d > 6:
+                return False
+            if y.i in norm:
+                return True
+            if y.op in ('fneg', 'fmul', 'fpext', 'fptrunc'):
+                return any(from_norm(a, d + 1) for a in y.a)
+            return False
+        for x in f.insts():
+            C = None
+            if x.op == 'fsub' and fconst(x.a[0]) and from_norm(x.a[1]):
+                C = fconst(x.a[0])
+            elif x.op == 'call' and isinstance(x.callee, str) and x.callee.startswith('llvm.fmuladd') and fconst(x.a[2]) and (from_norm(x.a[0]) or from_norm(x.a[1])):
+                neg = any((f.v(a) is not None and f.v(a).op == 'fneg') for a in x.a[:2] if a[0] == 'v') or any((fconst(a) or 0) < 0 for a in x.a[:2])
+                if neg:
+                    C = fconst(x.a[2])
+            if C is None:
+                continue
+            n += 1; ck.saw(f)
+            where = '%s: reflection at %s' % (fn, x.loc())
+            cmps = [c for c in f.insts() if c.op == 'fcmp' and any(list(a) == ['v', x.i] for a in c.a) and any(fconst(a) == C for a in c.a) and c.pred in ('oge', 'ogt', 'oeq', 'uge', 'ugt', 'ueq', 'ole', 'olt', 'one', 'ule', 'ult', 'une')]
+            # uses of the reflected value other than those comparisons, its own adjustment (x - C) and merges
+            bad = []
+            for y in f.users(x):
+                if y in cmps or y.op in ('phi', 'select'):
+                    continue
+                if y.op in ('fsub', 'fadd') and any(fconst(a) in (C, -C) for a in y.a):
+                    continue
+                bad.append(y)
+            merges = [y for y in f.users(x) if y.op in ('phi', 'select')]
+            alt = any(any(list(a) != ['v', x.i] for a in (y.a if y.op == 'phi' else y.a[1:])) for y in merges)
+            if cmps and not bad and (alt or not merges):
+                ck.ok(R, where, 'the value %g is handled before use' % C)
+            else:
+                ck.violation(R, fn, 'reflected angle used with its closed end', '%s reflects the normalised angle ([0, K)) into (0, %g] at %s and %s: for a pixel exactly on the ray at angle 0 the parameter is %g, which lies behind the last stop - transparent under REPEAT_NONE (a transparent half row through the centre of every conical gradient whose centre is at a pixel centre)' % (fn, C, x.loc(), 'uses the result without comparing it with %g' % C if not cmps else 'still uses the unadjusted value', C), x.loc())
+    if n == 0:
+        raise AnalysisBroken('%s: no reflection of a loop-normalised angle found in pixman-conical-gradient.c' % rid)
